@@ -183,11 +183,10 @@ func (e *c15env) allOld(keys []string) bool {
 	return true
 }
 
-// drainAwaiting lets the receivers reject the awaiting contracts that have piled up. The awaiting cache keeps one
+// drainAwaiting takes the awaiting contracts that have piled up off the cache (as their receivers could). The awaiting cache keeps one
 // growing list per address and rewrites it on every save; with thousands of entries the list's own rewrites push young
 // entries out of its 512 KB cache shard, which would look like an effect of whatever request happens to run then.
 func (e *c15env) drainAwaiting() {
-	ctx := context.Background()
 	for _, u := range e.rig.Users {
 		trxs, err := e.rig.Cache.ReadTransactions(u.Addr)
 		if err != nil || len(trxs) < 40 {
@@ -197,7 +196,7 @@ func (e *c15env) drainAwaiting() {
 			if t.ReceiverAddress != u.Addr || e.keep[t.Hash] {
 				continue
 			}
-			e.rig.Notary.Reject(ctx, svc.Sign(u, t.Hash[:]))
+			e.rig.Cache.RemoveAwaitedTransaction(t.Hash, u.Addr) // straight from the cache: sealing them would only grow the ledger
 		}
 	}
 	e.last = nil
